@@ -523,6 +523,12 @@ func defineFieldMap(ttype Named, fieldMap Fields) (FieldDefinitionMap, error) {
 		if field.Type.Error() != nil {
 			return resultFieldMap, field.Type.Error()
 		}
+		if err = invariantf(
+			IsOutputType(field.Type),
+			`%v.%v field type must be Output Type but got: %v.`, ttype, fieldName, field.Type,
+		); err != nil {
+			return resultFieldMap, err
+		}
 		if err = assertValidName(fieldName); err != nil {
 			return resultFieldMap, err
 		}
@@ -548,6 +554,15 @@ func defineFieldMap(ttype Named, fieldMap Fields) (FieldDefinitionMap, error) {
 			}
 			if err = invariantf(
 				arg.Type != nil,
+				`%v.%v(%v:) argument type must be Input Type but got: %v.`, ttype, fieldName, argName, arg.Type,
+			); err != nil {
+				return resultFieldMap, err
+			}
+			if arg.Type.Error() != nil {
+				return resultFieldMap, arg.Type.Error()
+			}
+			if err = invariantf(
+				IsInputType(arg.Type),
 				`%v.%v(%v:) argument type must be Input Type but got: %v.`, ttype, fieldName, argName, arg.Type,
 			); err != nil {
 				return resultFieldMap, err
@@ -1153,6 +1168,9 @@ func NewInputObject(config InputObjectConfig) *InputObject {
 	if gt.err = invariant(config.Name != "", "Type must be named."); gt.err != nil {
 		return gt
 	}
+	if gt.err = assertValidName(config.Name); gt.err != nil {
+		return gt
+	}
 
 	gt.PrivateName = config.Name
 	gt.PrivateDescription = config.Description
@@ -1189,6 +1207,15 @@ func (gt *InputObject) defineFieldMap() InputObjectFieldMap {
 		}
 		if gt.err = invariantf(
 			fieldConfig.Type != nil,
+			`%v.%v field type must be Input Type but got: %v.`, gt, fieldName, fieldConfig.Type,
+		); gt.err != nil {
+			return resultFieldMap
+		}
+		if gt.err = fieldConfig.Type.Error(); gt.err != nil {
+			return resultFieldMap
+		}
+		if gt.err = invariantf(
+			IsInputType(fieldConfig.Type),
 			`%v.%v field type must be Input Type but got: %v.`, gt, fieldName, fieldConfig.Type,
 		); gt.err != nil {
 			return resultFieldMap
@@ -1265,6 +1292,7 @@ func NewList(ofType Type) *List {
 	}
 
 	gl.OfType = ofType
+	gl.err = ofType.Error()
 	return gl
 }
 func (gl *List) Name() string {
